@@ -204,7 +204,11 @@ class LineCounter:
         return self._local
 
     def _global(self, frame, event, arg):
-        if event == "call" and frame.f_code.co_filename.startswith(self.roots):
+        # module-level frames are not counted: numba runs a few lines attributed to the library module the first time
+        # a compiled function is specialised for a signature (and a lazy import runs module code), i.e. once per
+        # process rather than per call -- counting them made the line count of a call depend on which runs the
+        # process had executed before (found by the determinism sample of a seed sweep, VERIF_SEED=9, H-jit-ot #19)
+        if event == "call" and frame.f_code.co_filename.startswith(self.roots) and frame.f_code.co_name != "<module>":
             return self._local
         return None
 
